@@ -348,6 +348,42 @@ def gen_tables(inj, insts):
     return {"TABLES": tables.rust_tables(tabs)}
 
 
+HEADER_DUMP_MAIN = """
+fn main() {
+    for k in [%s] {
+        let names = composition::oligo::verif_dumph::header_names(k);
+        println!("HK {} {}", k, names.len());
+        for n in names { println!("HN {} {}", k, n); }
+    }
+}
+"""
+
+
+def gen_c03(inj, insts):
+    gen = gen_tables(inj, insts)
+    hks = sorted({k for i in insts for k in i.desc.get("header_dump", [])})
+    gen["HEADERS"] = ""
+    if hks:
+        out = inj.native_run("composition", HEADER_DUMP_MAIN % ", ".join("%dusize" % k for k in hks), ["composition"], "headers")
+        names = {}
+        for line in out.splitlines():
+            if line.startswith("HN "):
+                _, k, n = line.split(" ", 2)
+                names.setdefault(int(k), []).append(n)
+        src = []
+        import inject as _inject
+        for k in hks:
+            ns = names.get(k, [])
+            if any(len(n.encode()) != k for n in ns):
+                # a name of the wrong length cannot be embedded in [[u8; K]]: keep the evidence and fail the instance visibly
+                bad = [n for n in ns if len(n.encode()) != k][:3]
+                raise _inject.InjectError("header dump for k=%d holds names that do not have k bytes: %r" % (k, bad))
+            src.append("pub static HEADER_K%d: [[u8; %d]; %d] = [%s];" % (k, k, len(ns), ", ".join('*b"%s"' % n for n in ns)))
+        gen["HEADERS"] = "\n".join(src) + "\n"
+        inj.extra_evidence["headers_by_native_run_of_real_new_and_get_header"] = {str(k): len(names.get(k, [])) for k in hks}
+    return gen
+
+
 def c03_instances(tier, seed):
     out = []
     for k in ((1,) if tier == "quick" else (1, 2)):
@@ -374,6 +410,10 @@ def c03_instances(tier, seed):
                         MAPU,
                         {"clause": "Python binding header names the canonical k-mers in column order", "k": k, "columns": "all (concrete walk)", "tables": [k]},
                         core=True, timeout=1800, cost=40.0 * 4 ** k))
+    for k in ((4, 5) if tier == "quick" else (4, 5, 6, 7)):
+        out.append(Inst("c03_header_dump_k%d" % k, "verif_c03h", "composition", "c03_header_dump::<%d>(&HEADER_K%d, &OCANON_K%d)" % (k, k, k), MAPU,
+                        {"clause": "CLI header (real new + get_header, dumped by a native run) names the canonical k-mers in column order", "k": k,
+                         "p": "symbolic column", "header_dump": [k]}, core=(k <= 5), timeout=1500, cost=20.0 * k))
     out.append(Inst("c03_pynew_k1", "verif_c03p", "pybindings", "c03_pynew::<1>(&RANK_K1, &INV_K1, COUNT_K1)", MAPU,
                     {"clause": "binding constructor executed by the solver stores the native tables", "k": 1, "tables": [1]}, core=False, timeout=1500, cost=300.0))
     return out
@@ -396,12 +436,13 @@ PROPS["C03"] = Prop(
     ],
     assumptions=COMMON_ASSUME + [HASHMAP_NOTE, BIO_NOTE,
                                  "for k >= 4 the rank/inverse tables are produced by running the real kmer_pos_maps(k) natively on the snapshot (input-free function) and embedded as constants; the quantified obligations over them are decided by the solver"],
-    outside=["k = 9, 10 (tables of 2^18 / 2^20 entries)", "header for k > 3 (the map model holds 64 entries)",
+    outside=["k = 9, 10 (tables of 2^18 / 2^20 entries)", "in-solver execution of get_header for k > 3 (the map model holds 32 entries); for k = 4..=7 the CLI header is dumped by a native run of the real new()+get_header() and the obligations over it are decided by the solver",
              "the wiring inside OligoComputer::new (calls rayon::current_num_threads) - the struct is built directly from the tables",
-             "the join of the header vector with the delimiter presets (sits behind file I/O)", "OligoCgrComputer::new (calls rayon::current_num_threads)"],
+             "the join of the header vector with the delimiter presets (sits behind file I/O)", "OligoCgrComputer::new (calls rayon::current_num_threads)",
+             "Python binding header for k > 3"],
     instances=c03_instances,
     shims=["hashmap", "bio"],
-    generate=gen_tables,
+    generate=gen_c03,
     roles=[
         ("4^k entries", "rank-table-size"),
         ("column count", "column-count"),
@@ -837,7 +878,8 @@ def c13_instances(tier, seed):
     if tier == "quick":
         oligo(1, 3, 0)
         oligo(2, 4, 0)
-        oligo(2, 3, 0b010)
+        oligo(1, 3, 0b010)
+        oligo(2, 4, 0b0100)
         cgr(0, 0)
         cgr(2, 0)
         cgr(2, 0b10)
@@ -846,20 +888,23 @@ def c13_instances(tier, seed):
         for k in (1, 2, 3):
             for n in range(0, 5):
                 oligo(k, n, 0, core=(k <= 2))
-            for m in (0b001, 0b010, 0b100, 0b101):
-                oligo(k, 3, m, core=(k <= 2))
+            for (n, m) in ((3, 0b001), (3, 0b010), (3, 0b100), (4, 0b0100), (4, 0b1000), (4, 0b0001)):
+                if n - bin(m).count("1") >= k and not (k >= 2 and n == 3):
+                    oligo(k, n, m, core=(k <= 2))
         for n in range(0, 4):
             cgr(n, 0, core=(n <= 3))
         for (n, m) in ((1, 1), (2, 1), (2, 2), (2, 3), (3, 1), (3, 2), (3, 4)):
             cgr(n, m, core=(n <= 2))
     for k in ([2] if tier == "quick" else [1, 2, 3]):
-        out.append(Inst("c13_oligo_unicode_k%d" % k, "verif_c13o", "pybindings", "c13_oligo_unicode::<%d>(&RANK_K%d, &INV_K%d, COUNT_K%d)" % (k, k, k, k),
-                        MAPU,
-                        {"clause": "oligo vector on 4 fixed non-ASCII strings (multi-byte chars act as ambiguous bytes)", "k": k, "norm": "symbolic", "tables": [k]},
-                        core=False, timeout=1800, cost=100.0, unwindset=[kmer_loop(9)]))
+        for which in ((2,) if tier == "quick" else (0, 1, 2, 3)):
+            out.append(Inst("c13_oligo_unicode_k%d_s%d" % (k, which), "verif_c13o", "pybindings",
+                            "c13_oligo_unicode::<%d, %d>(&RANK_K%d, &INV_K%d, COUNT_K%d)" % (k, which, k, k, k), MAPU,
+                            {"clause": "oligo vector on a fixed string with a 2/3/4-byte character (acts as ambiguous bytes)", "k": k,
+                             "string": ["AC\\u00e9GT", "\\u20acACGTA", "AC\\U00010348CGT", "ACGT\\u00e9"][which], "norm": "symbolic", "tables": [k]},
+                            core=False, timeout=1800, cost=100.0, unwindset=[kmer_loop(9)]))
         out.append(Inst("c13_header_k%d" % k, "verif_c13o", "pybindings", "c13_header::<%d>(&RANK_K%d, &INV_K%d, COUNT_K%d)" % (k, k, k, k),
                         MAPU,
-                        {"clause": "binding header equals core header", "k": k, "column": "symbolic", "tables": [k]}, core=(k <= 2), timeout=1800, cost=100.0))
+                        {"clause": "binding header equals core header", "k": k, "columns": "all (concrete walk)", "tables": [k]}, core=(k <= 2), timeout=1800, cost=100.0))
     for (k, n) in ([(2, 5), (31, 33)] if tier == "quick" else [(1, 5), (2, 6), (4, 8), (31, 34)]):
         out.append(Inst("c13_kmer_iter_k%d_n%d" % (k, n), "verif_c13k", "pybindings", "c13_kmer_iter::<%d, %d, %d>()" % (k, n, n - k + 2), n + 2,
                         {"clause": "k-mer iterator: binding vs core after the String is consumed and the object moved", "k": k, "len": n},
@@ -986,3 +1031,66 @@ PROPS["C18"].functions += ["(inductive step) one next() of each iterator from an
 PROPS["C18"].assumptions += [
     "inductive-step instances: the pre-state is ANY state satisfying the validity invariant of harness/kmer/verif_c18k.rs (inv), which the same instances prove to be inductive (base case c18_base_*, step c18_step_*); the ring model holds <= 8 buffered m-mers, the harness state array 4 (w-m+1 <= 4)",
 ]
+
+PROPS["C03"].pre_modules = [Module("composition", "verif_dumph", "harness/composition/verif_dumph.rs", parent="oligo")]
+
+
+# ---------------------------------------------------------------------------
+# C16 (kernel of the `min` subcommands)
+def c16_extract(inj, insts):
+    """Extracts, for bin_sequences and seq_to_min, the expression that builds the per-record
+    MinimiserGenerator (`let mgen = if wsize == 0 { A } else { B };`) from the CURRENT
+    misc/src/minimisers.rs."""
+    import inject as _inject
+    src = open(_os.path.join(inj.ws, "misc/src/minimisers.rs")).read()
+    sites = _re.findall(r"let mgen = (if wsize == 0 \{.*?\} else \{.*?\});", src, _re.S)
+    if len(sites) != 2:
+        raise _inject.InjectError("C16: expected 2 `let mgen = if wsize == 0 {..} else {..};` call sites in misc/src/minimisers.rs, found %d" % len(sites))
+    code = []
+    for n, e in enumerate(sites):
+        code.append("pub fn site%d<'a>(record: &Rec<'a>, wsize: usize, msize: usize) -> MinimiserGenerator<'a> {\n    %s\n}" % (n, e.replace("&record.seq", "record.seq")))
+    inj.extra_evidence["c16_extracted_call_sites"] = [" ".join(e.split()) for e in sites]
+    return {"C16SITES": "\n".join(code)}
+
+
+def c16_instances(tier, seed):
+    out = []
+    # (w, m, lengths): w = 0 is the whole-record window of `-w 0`
+    combos = [(0, 1, range(0, 4)), (0, 2, range(0, 5)), (0, 3, range(0, 6)), (3, 2, (0, 1, 2, 3, 4))]
+    if tier == "thorough":
+        combos += [(3, 2, (5, 6)), (0, 7, (0, 3, 6, 7, 8, 9)), (0, 4, range(0, 8)), (2, 1, range(0, 5)), (4, 2, range(0, 7)), (8, 7, (0, 6, 7, 8, 9, 10))]
+    for (w, m, lens) in combos:
+        for n in lens:
+            for site in (0, 1):
+                cap = max((n - m + 1) if w == 0 else (w - m + 1), 1)
+                weff = max(n, m) if w == 0 else w
+                calls = (n - weff + 2) if n >= weff else 1
+                out.append(Inst("c16_min_w%d_m%d_l%d_site%d" % (w, m, n, site), "verif_c16", "misc", "c16_min_kernel::<%d, %d, %d, %d, %d>()" % (w, m, n, site, calls), n + 3,
+                                {"clause": "per-record minimiser kernel of %s ends cleanly (no panic, no placeholder)" % ("bin_sequences" if site == 0 else "seq_to_min"),
+                                 "w": "0 (whole record)" if w == 0 else w, "m": m, "len": n, "bytes": "symbolic 0x04..=0xFF"},
+                                core=(n <= 5 and m <= 3), timeout=2400, cost=10.0 * (n + 1) * cap,
+                                unwindset=[("kmer/src/minimiser.rs", BUFF_LOOP, min(cap, 8) + 2)]))
+    return out
+
+
+PROPS["C16"] = Prop(
+    "C16",
+    modules=[Module("misc", "verif_c16", "harness/misc/verif_c16.rs", parent="minimisers")],
+    functions=["the per-record generator construction of misc::minimisers::{bin_sequences, seq_to_min} (extracted call-site expressions)",
+               "kmer::minimiser::MinimiserGenerator::{new,next}"],
+    assumptions=COMMON_ASSUME + [
+        "std VecDeque replaced by the ring model (capacity 8) in Kani builds",
+        "the two call-site expressions are extracted by a regular expression from the current misc/src/minimisers.rs; if they cannot be located the check is inconclusive",
+        "w is 0 or greater than m (what the CLI admits)",
+    ],
+    outside=["everything else of C16: empty input files, exit status, the other subcommands' I/O paths (their per-record kernels are exercised on empty / short / all-ambiguous "
+             "records by C04, C08, C11, C12, C14 with Kani's panic checks on)", "rayon/scc/file output of the two subcommands", "records longer than the instance lengths"],
+    instances=c16_instances,
+    shims=["vecdeque", "bio"],
+    generate=c16_extract,
+    roles=[
+        ("placeholder value", "placeholder-emitted"),
+        ("does not lie inside the record", "run-outside-record"),
+        ("does not end", "iterator-does-not-end"),
+    ],
+)
